@@ -39,7 +39,96 @@ class Ctx:
                 g.result = g.analyse()
         return self._grammars
 
+    def parts_of(self, anchors):
+        """Keys of the private helpers that are called by nothing but the given functions (or other such helpers of the
+        same module): what a maintainer gets when he splits one of those functions up.  A who-may-do-X rule that names
+        the function extends to them."""
+        anchors = set(anchors)
+        callers = {}
+        for k, tgts in self.cg.edges.items():
+            for t in tgts:
+                callers.setdefault(t, set()).add(k)
+        parts = set()
+        changed = True
+        while changed:
+            changed = False
+            for key, f in self.prog.funcs.items():
+                if key in parts or key in anchors:
+                    continue
+                name = f.name
+                if not name.startswith('_') or name.startswith('__'):
+                    continue
+                cs = callers.get(key, set()) - {key}
+                if cs and all(c in anchors or c in parts for c in cs) and all(
+                        self.prog.funcs[c].mod is f.mod for c in cs):
+                    parts.add(key)
+                    changed = True
+        return parts
+
+    def owner(self, key):
+        """The function a private helper belongs to: follow the chain of sole callers (same module) upwards while the
+        function is private.  Findings in such a helper are keyed by the owner, so that moving a statement into a helper
+        of its function does not turn a listed finding into a new one."""
+        if not hasattr(self, '_callers'):
+            self._callers = {}
+            for k, tgts in self.cg.edges.items():
+                for t in tgts:
+                    self._callers.setdefault(t, set()).add(k)
+        seen = set()
+        while key not in seen:
+            seen.add(key)
+            f = self.prog.funcs.get(key)
+            if f is None or not f.name.startswith('_') or f.name.startswith('__'):
+                break
+            cs = self._callers.get(key, set()) - {key}
+            if len(cs) != 1:
+                break
+            (c,) = cs
+            if self.prog.funcs[c].mod is not f.mod:
+                break
+            key = c
+        return key
+
+    def view(self, func, keep=()):
+        """The function with the statement-level calls of private helpers of its module / class replaced by their bodies
+        (see inline.py): for rules that follow the paths of one function and must not care whether a part of it was moved
+        into a helper.  Returns ``func`` itself when nothing was inlined."""
+        if not hasattr(self, '_views'):
+            self._views = {}
+        vkey = (func.key, tuple(sorted(keep)))
+        if vkey in self._views:
+            return self._views[vkey]
+        from .inline import inline_view
+        from .model import Func
+
+        def lookup(name, is_method):
+            if not name.startswith('_') or name.startswith('__') or name in keep:
+                return None
+            if is_method:
+                if func.cls is None:
+                    return None
+                m = func.cls.lookup(name)
+                return m.node if m is not None and m.mod is func.mod else None
+            g = func.mod.funcs.get(name)
+            return g.node if g is not None and g.cls is None and g.outer is None else None
+        node, inlined = inline_view(func.node, lookup)
+        if not inlined:
+            self._views[vkey] = func
+            return func
+        v = Func(func.mod, func.qual, node, cls=func.cls, outer=func.outer)
+        v.inlined = inlined
+        v.view_of = func
+        v.nested = func.nested
+        v.view_id = '%s#view%d' % (func.qual, len(self._views))
+        self._views[vkey] = v
+        return v
+
     def cfg(self, func):
+        if getattr(func, 'view_of', None) is not None:
+            k = (func.mod.rel, func.view_id)
+            if k not in self._cfgs:
+                self._cfgs[k] = CFG(func.node)
+            return self._cfgs[k]
         if func.key not in self._cfgs:
             self._cfgs[func.key] = CFG(func.node)
         return self._cfgs[func.key]
